@@ -36,6 +36,11 @@ struct Sink {
     seq_text: String,
     seq_flags: HashSet<&'static str>,
     may_leak: bool,
+    /// a panic left an entry whose recorded size no longer matches its value, or current_size > max_size:
+    /// arithmetic of a later mutate / try_insert may overflow (documented limit of C16)
+    stale: bool,
+    /// an injected panic fired earlier in this sequence: from then on only C16's own promises are monitored
+    after_panic: bool,
     failures: usize,
 }
 
@@ -106,6 +111,8 @@ impl Sink {
             seq_text: String::new(),
             seq_flags: HashSet::new(),
             may_leak: false,
+            stale: false,
+            after_panic: false,
             failures: 0,
         };
         let p = exec::params_line();
@@ -129,6 +136,8 @@ impl Sink {
         self.seq_text.clear();
         self.seq_flags.clear();
         self.may_leak = false;
+        self.stale = false;
+        self.after_panic = false;
         self.stats.seqs += 1;
         *self.stats.hashers.entry(hkind.name().to_owned()).or_default() += 1;
         let l = format!("# seq {} hasher={} {}", self.seq_no, hkind.name(), what);
@@ -238,6 +247,11 @@ impl Sink {
             }
             self.stats.max_len = self.stats.max_len.max(post.len);
         }
+        if let (Some((k, n)), Op::On { op: OpKind::MutSet { .. } | OpKind::MutRep { .. }, .. }) = (o.injected, &o.line.op) {
+            if (k == Kind::SizeV && n >= 2) || ((k == Kind::Hash || k == Kind::Eq) && n >= 2) {
+                self.stale = true;
+            }
+        }
         if o.injected.is_some() {
             self.stats.panics_fired += 1;
             self.flag("C16");
@@ -250,6 +264,16 @@ impl Sink {
 
     /// Executes a line, writes it out, runs the monitors.
     fn step(&mut self, w: &mut World, line: &Line) -> Option<Outcome> {
+        if self.stale {
+            if let Op::On { c, op: OpKind::MutSet { .. } | OpKind::MutRep { .. } | OpKind::TIns { .. } } = &line.op {
+                let nop = gen::mk_line(line.full, Op::On { c: *c, op: OpKind::Nop });
+                return self.step_inner(w, &nop);
+            }
+        }
+        self.step_inner(w, line)
+    }
+
+    fn step_inner(&mut self, w: &mut World, line: &Line) -> Option<Outcome> {
         if self.careful {
             // the line about to run, so that a crash can be attributed
             writeln!(self.mon, "RUN {} {}", self.line_no, line.text()).unwrap();
@@ -261,6 +285,25 @@ impl Sink {
         self.seq_text.push_str(&line.text());
         self.seq_text.push('\n');
         let mut fails = monitors::check_outcome(&o, self.ovh, self.vsz);
+        if o.injected.is_some() {
+            self.after_panic = true;
+            fails.extend(monitors::check_panic(&o));
+        }
+        if self.after_panic {
+            // C16: the cache stays usable — no double drop / use after free (token table, C06 → C16),
+            // traversals mirror and agree with lookups (hook walk, C07 → C16), current_size equals the
+            // sum of the recorded sizes. Value sizes that a panicking size estimate left unrecorded,
+            // and what later operations return on such a state, are not promised.
+            let mut kept = Vec::new();
+            for f in fails {
+                match f.prop {
+                    "C06" | "C07" | "C16" => kept.push(monitors::Fail { prop: "C16", msg: f.msg }),
+                    "C02" if f.msg.contains("recorded sizes") => kept.push(monitors::Fail { prop: "C16", msg: f.msg }),
+                    _ => {}
+                }
+            }
+            fails = kept;
+        }
         // C14: an operation on one cache leaves every other live cache exactly as it was
         let touched = match &line.op {
             Op::New { c, .. } | Op::Drop { c } | Op::On { c, .. } => vec![*c],
